@@ -600,3 +600,23 @@ func (st *State) SinkWrite(p []byte) (int, error) {
 	st.event("write n=%d", len(p))
 	return len(p), nil
 }
+
+// InstallLight installs only the map-order schedule, clock and disk of w; the
+// process environment and time.Local are left alone. Library-level runners use
+// it around direct calls of the public packages.
+func InstallLight(w World) *State {
+	st := &State{W: w, files: map[string]*FileSpec{}, now: w.ClockUnixNano, hash: sha256.New(), loc: time.UTC}
+	for i := range w.Files {
+		f := &st.W.Files[i]
+		st.files[st.abs(f.Path)] = f
+	}
+	cur = st
+	return st
+}
+
+// UninstallLight ends an InstallLight.
+func (st *State) UninstallLight() {
+	if cur == st {
+		cur = nil
+	}
+}
